@@ -214,6 +214,9 @@ func (obj *Flavor) inheritFlavor(cf *Flavor) {
 	for k := range cf.initable {
 		obj.initable[k] = true
 	}
+	for _, k := range cf.requiredKeywords {
+		obj.addRequiredKeyword(k)
+	}
 	for k, im := range cf.methods {
 		for _, ic := range im.Combinations {
 			if ic.From == &vanilla && cf != &vanilla {
@@ -240,6 +243,15 @@ func (obj *Flavor) inheritFlavor(cf *Flavor) {
 			obj.inheritFlavor(f2)
 		}
 	}
+}
+
+func (obj *Flavor) addRequiredKeyword(key string) {
+	for _, k := range obj.requiredKeywords {
+		if k == key {
+			return
+		}
+	}
+	obj.requiredKeywords = append(obj.requiredKeywords, key)
 }
 
 func (obj *Flavor) calledFromLISP() bool {
